@@ -31,7 +31,8 @@ N = {
     # disruption scenarios run under all 4 option combinations (preference policy x minValues policy), sched scenarios under both
     # preference policies (the rest cycling) and the full grid on `grid` of them
     "quick": dict(beh=30, beh_depth=8, rich=36, c07_explore=8, sched={"basic": 150, "interpod": 50, "reserved": 50}, grid=6, procs=4, par=4),
-    "thorough": dict(beh=800, beh_depth=12, rich=1500, c07_explore=300, sched={"basic": 5000, "interpod": 1500, "reserved": 1500}, grid=120, procs=8, par=8),
+    # (thorough keeps ~2.5 GB of traces in .work while it runs: a Snapshot line is 7-10 kB)
+    "thorough": dict(beh=400, beh_depth=12, rich=800, c07_explore=150, sched={"basic": 2500, "interpod": 800, "reserved": 800}, grid=60, procs=8, par=8),
 }
 WEAKENINGS = ["liveNode", "sortInPlace", "nominateInSim", "relaxHeld", "passBooksUsage", "simWrites"]
 
